@@ -673,6 +673,22 @@ def _check_long(case, ctx):
     if not np.array_equal(A, A0):
         raise Violation("conversion_modified_its_argument", "a conversion "
                         "changed the %d-element array handed to it" % n, tags)
+    # one transmitted frame against several decoded copies: the operands
+    # have different but broadcastable shapes
+    if len(shape) == 1 and n >= 2000:
+        rows = 3
+        a3 = np.stack([np.roll(a, k) for k in range(rows)])
+        A3 = a3.astype(dtype)
+        want3 = int(_popcount_vec(a3 ^ b[np.newaxis, :]).sum())
+        for x, y, what in ((A3, B, "(3,n) vs (n,)"),
+                           (B, A3, "(n,) vs (3,n)")):
+            got3 = count_bit_errors(x, y)
+            if np.ndim(got3) != 0 or int(got3) != want3:
+                raise Violation("biterr_total", "count_bit_errors of "
+                                "broadcastable shapes %s (%s): %r, Hamming "
+                                "distance %d" % (what, dtype, got3, want3),
+                                tags)
+        ctx.label("long:broadcast_operands")
     # bit errors: total and per axis
     ham = _popcount_vec(a ^ b).reshape(shape)
     tot = count_bit_errors(A, B)
